@@ -65,7 +65,7 @@ class C19(Check):
     def directed(self):
         return [{"ops": [["value", 1], ["adv", 3], ["create", "a", 2], ["adv", 1], ["create", "a", 9], ["change", "a", 5], ["adv", 2], ["update", "b2", 1],
                          ["set", "_private", 1], ["del", "a"], ["set", "a", 7], ["detach"], ["value", 4], ["attach", 50], ["update", "a", 1],
-                         ["push", 1], ["gulp", None], ["gulp", 2], ["pull"], ["spew"], ["spew"], ["get", "zz"], ["create", "9lives", 1],
+                         ["push", 1], ["gulp", None], ["gulp", 2], ["gulp", 0], ["pull"], ["spew"], ["spew"], ["spew"], ["get", "zz"], ["create", "9lives", 1],
                          ["adv", 2], ["multi", "create", [["dict", [["q1", 1]]], ["duples", [["a", 3], ["q2", 2]]], ["kw", [["a", 4]]]]],
                          ["adv", 1], ["multi", "update", [["duples", [["a", 5], ["a", 6]]], ["kw", [["q1", 0]]]]], ["adv", 1], ["multi", "change", [["dict", [["q3", 1]]]]]]}]
 
@@ -105,9 +105,9 @@ class C19(Check):
             elif r < 0.83:
                 ops.append(["attach", g.choice([0, 5, 100])])
             elif r < 0.88:
-                ops.append(["push", g.choice([1, "x", None])])
+                ops.append(["push", g.choice([1, "x", None, 0, "", False])])
             elif r < 0.92:
-                ops.append(["gulp", g.choice([2, "y", None, None])])
+                ops.append(["gulp", g.choice([2, "y", None, None, 0, "", False, [], {}])])      # falsy elements are elements: only None is ignored
             elif r < 0.96:
                 ops.append(["pull"])
             else:
